@@ -311,6 +311,67 @@ theorem kleinGordon_mass_zero (speed : K) (lap : Op ι K) (u v : St ι K) :
 
 end
 
+/-! ### the local part of a right-hand side is evaluated cell by cell -/
+section
+variable {ι K : Type} [Field K]
+
+/-- no differential operator occurs in the expression -/
+def OperatorFree : Expr → Prop
+  | .num _ => True
+  | .var _ => True
+  | .idx _ _ => True
+  | .named _ => True
+  | .neg a => OperatorFree a
+  | .add a b => OperatorFree a ∧ OperatorFree b
+  | .sub a b => OperatorFree a ∧ OperatorFree b
+  | .mul a b => OperatorFree a ∧ OperatorFree b
+  | .div a b => OperatorFree a ∧ OperatorFree b
+  | .powI a _ => OperatorFree a
+  | .call1 f a => isDiffOp1 f = false ∧ OperatorFree a
+  | .call2 _ a b => OperatorFree a ∧ OperatorFree b
+  | .heav1 a => OperatorFree a
+  | .heav2 a h => OperatorFree a ∧ OperatorFree h
+  | .cmp _ a b => OperatorFree a ∧ OperatorFree b
+
+@[simp] theorem pdeTab_local_f1 (T : FunTab K) (lap g : Op ι K) (f : String) (x : Fld ι K)
+    (hf : isDiffOp1 f = false) : ((pdeTab T lap g).f1 f x).val = fun i => T.f1 f (x.val i) := by
+  simp [pdeTab, opTab, hf]
+
+@[simp] theorem pdeTab_f0 (T : FunTab K) (lap g : Op ι K) (c : String) :
+    ((pdeTab T lap g : FunTab (Fld ι K)).f0 c).val = fun _ => T.f0 c := rfl
+@[simp] theorem pdeTab_f2 (T : FunTab K) (lap g : Op ι K) (f : String) (x y : Fld ι K) :
+    ((pdeTab T lap g).f2 f x y).val = fun i => T.f2 f (x.val i) (y.val i) := by
+  simp [pdeTab, opTab]
+@[simp] theorem pdeTab_heav (T : FunTab K) (lap g : Op ι K) (x h : Fld ι K) :
+    ((pdeTab T lap g).heav x h).val = fun i => T.heav (x.val i) (h.val i) := rfl
+@[simp] theorem pdeTab_cmp (T : FunTab K) (lap g : Op ι K) (op : Cmp) (x y : Fld ι K) :
+    ((pdeTab T lap g).cmp op x y).val = fun i => T.cmp op (x.val i) (y.val i) := rfl
+
+/-- reaction terms, explicit time and coordinate dependence, constants: without operators the
+field semantics of a right-hand side is the scalar semantics of C11 in every cell, whatever the
+operators and their boundary conditions are -/
+theorem rhsValue_operator_free (T : FunTab K) (lap g : Op ι K) (envs : ι → Env K) (e : Expr)
+    (h : OperatorFree e) (i : ι) :
+    (eval (pdeTab T lap g) (liftEnv envs) e).val i = eval T (envs i) e := by
+  induction e with
+  | num q => simp [eval]
+  | var x => simp [eval, liftEnv]
+  | idx x k => simp [eval, liftEnv]
+  | named c => simp [eval]
+  | neg a iha => simp [eval, iha h]
+  | add a b iha ihb => simp [eval, iha h.1, ihb h.2]
+  | sub a b iha ihb => simp [eval, iha h.1, ihb h.2]
+  | mul a b iha ihb => simp [eval, iha h.1, ihb h.2]
+  | div a b iha ihb => simp [eval, iha h.1, ihb h.2]
+  | powI a n iha => simp [eval, iha h]
+  | call1 f a iha => simp [eval, pdeTab_local_f1 _ _ _ _ _ h.1, iha h.2]
+  | call2 f a b iha ihb => simp [eval, iha h.1, ihb h.2]
+  | heav1 a iha => simp [eval, iha h]
+  | heav2 a b iha ihb => simp [eval, iha h.1, ihb h.2]
+  | cmp op a b iha ihb => simp [eval, iha h.1, ihb h.2]
+
+end
+
 /-! ### the driver's operators are of the kind the theorems speak about -/
 section
 variable {K : Type} [Field K] [CharZero K]
